@@ -441,7 +441,8 @@ class PopulationBalanceModel:
                 change = True
                 newIndices = None
             elif checkDissolution and self.PSDbounds[-1] > 10*self.PSDbounds[0]:
-                if any(self.PSD > 1) and np.amax(self.PSDsize[self.PSD > 1]) < self.PSDsize[int(self.minBins/2)]:
+                #With fewer size classes than minBins/2, compare to the last size class
+                if any(self.PSD > 1) and np.amax(self.PSDsize[self.PSD > 1]) < self.PSDsize[min(int(self.minBins/2), self.bins-1)]:
                     #print('splitting bins')
                     self.changeSizeClasses(self.PSDbounds[0], np.amax(self.PSDbounds[1:][self.PSD > 1]), self.maxBins)
                     change = True
